@@ -52,7 +52,9 @@ impl VIOT {
 
     fn update_header(&mut self, sum: u8, len: u32) {
         let old_len = self.header.length.get();
-        let new_len = len + old_len;
+        let new_len = old_len
+            .checked_add(len)
+            .expect("table length overflows the 32-bit Length field");
         self.header.length.set(new_len);
 
         // Remove the bytes from the old length, add the new length
